@@ -54,6 +54,14 @@ def handle (op : String) (j : Json) : Option (R Json) :=
   | "c14.trapz" => some do
       let wave ← getRats j "wave"; let value ← getRats j "value"
       pure (okJ [("q", ratToJson (trapz wave value))])
+  | "c14.vega" => some do
+      let wu ← wunit (← getStr j "wu"); let vu ← funit (← getStr j "vu")
+      let H ← getRat j "H"; let C ← getRat j "C"
+      match Band.ofName? (← getStr j "band") with
+      | none => pure (errJ "ValueError")
+      | some b =>
+        let r : Rat × Rat := vegaflux H C b wu vu
+        pure (okJ [("flux", ratToJson r.1), ("wave", ratToJson r.2)])
   | "c14.planck" => some do
       let wu ← wunit (← getStr j "wu"); let vu ← funit (← getStr j "vu")
       let w ← getFloat j "wave"; let T ← getFloat j "temp"; let pi ← getFloat j "pi"
